@@ -163,6 +163,9 @@ func (in *Inst) havocAll(st *State) {
 		}}
 	st.ep = ep
 	st.ov = map[string]string{}
+	for _, pc := range e.pinned {
+		e.assume(st.reach, sEq(sSel(st.get(pc.comp), pc.ref), pc.val))
+	}
 }
 
 // ---------------------------------------------------------------------------
